@@ -55,7 +55,8 @@ typedef unsigned __int128 u128;
 constexpr size_t LIMIT = (size_t)1 << 20;            // the underlying memory refuses larger requests
 constexpr size_t SLACK = 256;                        // requests <= LIMIT - SLACK must succeed (bookkeeping is < SLACK)
 constexpr size_t MAXA = alignof(std::max_align_t);
-constexpr size_t GS = MemoryLeakDetector::memory_corruption_buffer_size;   // 3, or 0 in the noguard flavour
+constexpr size_t GS = MemoryLeakDetector::memory_corruption_buffer_size;   // the library's own constant (0 in the noguard flavour); values of the guard bytes are never assumed
+static_assert(sizeof(MemoryLeakDetectorNode) + GS + 2 * sizeof(void*) < SLACK, "bookkeeping per block must stay below SLACK");
 
 std::string u128s(u128 v) {
     if (v <= (u128)SIZE_MAX) return vf::fmt("%zu", (size_t)v);
@@ -168,7 +169,8 @@ struct Reporter : MemoryLeakFailure {
 };
 
 // ------------------------------------------------------------------ per-case environment
-struct UB { char* p; size_t size; char fam; unsigned char pat; };      // a live user block; fam: N new, A new[], M malloc family
+// a live user block; fam: N new, A new[], M malloc family; guard = snapshot of the bytes behind the user bytes taken right after the allocation
+struct UB { char* p; size_t size; char fam; unsigned char pat; bool guard_taken; unsigned char guard[GS ? GS : 1]; };
 UB g_live[40]; int g_nlive; unsigned char g_next_pat;
 
 void* (*g_saved_malloc)(size_t); void (*g_saved_free)(void*); void* (*g_saved_realloc)(void*, size_t);
@@ -233,8 +235,9 @@ void fill(const UB& b) { for (size_t i = 0; i < b.size; i++) b.p[i] = (char)pat_
 bool intact(const UB& b) { for (size_t i = 0; i < b.size; i++) if ((unsigned char)b.p[i] != pat_at(b, i)) return false; return true; }
 int add_live(char* p, size_t size, char fam) {
     if (g_nlive >= 40) vf::harness_error("too many live blocks");
-    g_live[g_nlive] = UB{p, size, fam, g_next_pat}; g_next_pat = (unsigned char)(g_next_pat * 5 + 3);
+    g_live[g_nlive] = UB{p, size, fam, g_next_pat, false, {0}}; g_next_pat = (unsigned char)(g_next_pat * 5 + 3);
     fill(g_live[g_nlive]);
+    if (GS && containing(p + size, GS)) { memcpy(g_live[g_nlive].guard, p + size, GS); g_live[g_nlive].guard_taken = true; }   // taken after the fill: the user bytes do not reach them
     return g_nlive++;
 }
 void remove_live(int k) { for (int i = k; i + 1 < g_nlive; i++) g_live[i] = g_live[i + 1]; g_nlive--; }
@@ -258,7 +261,7 @@ void check_all(const std::string& pfx, const std::string& desc) {
         if (!node) continue;
         if (GS) {
             if (!containing(b.p + b.size, GS)) bad(pfx + "/bookkeeping-outside-underlying-memory", desc + vf::fmt(": guard bytes of block #%d are not inside a live underlying block", i));
-            else { if (memcmp(b.p + b.size, "BAS", GS) != 0) bad(pfx + "/guard-damaged", desc + vf::fmt(": guard bytes of live block #%d changed", i)); rg[nr++] = Range{b.p + b.size, GS, i, "guard"}; }
+            else { if (b.guard_taken && memcmp(b.p + b.size, b.guard, GS) != 0) bad(pfx + "/guard-damaged", desc + vf::fmt(": the %zu guard bytes of live block #%d changed since it was allocated", GS, i)); rg[nr++] = Range{b.p + b.size, GS, i, "guard"}; }
         }
         if (!containing((const char*)node, sizeof(MemoryLeakDetectorNode))) bad(pfx + "/bookkeeping-outside-underlying-memory", desc + vf::fmt(": record of block #%d is not inside a live underlying block", i));
         else {
